@@ -55,6 +55,13 @@ var c18Templates = []c18Template{
 	logT("distinct_level", ` | logfmt | distinct level`),
 	logT("json_keep", ` | json | keep level, container`),
 	logT("decolorize", ` | decolorize`),
+	// two queries that differ only by white space inside a string literal
+	logT("hello_one_space", ` |= "hello world"`),
+	logT("hello_two_spaces", ` |= "hello  world"`),
+	logT("tab_in_literal", " |= \"k=1\ttok\""),
+	logT("space_in_literal", ` |= "k=1 tok"`),
+	// a template function with a regex that differs from plan to plan (see Gen)
+	logT("regex_replace", ` | line_format "{{ regexReplaceAll \"c[0-9]+r@\" __line__ \"N\" }}"`),
 	metT("count", "count_over_time(", ")"),
 	metT("bytes", "bytes_over_time(", ")"),
 	metT("count_filter", "count_over_time(", ")"),
@@ -66,7 +73,7 @@ var c18Templates = []c18Template{
 	metT("count_by", "count by (container_image) (count_over_time(", "))"),
 	metT("vec_lit", "count_over_time(", ") * 3"),
 	{name: "sum_unwrap", metric: true, build: func(a, _, r string) string {
-		return "sum_over_time(" + a + " | unwrap weight [" + r + "]) by (container)"
+		return "sum by (container) (sum_over_time(" + a + " | unwrap weight [" + r + "]))"
 	}},
 	{name: "max_unwrap_image", metric: true, build: func(a, _, r string) string {
 		return "max_over_time(" + a + " | unwrap weight [" + r + "]) by (container_image)"
@@ -78,7 +85,7 @@ var c18Templates = []c18Template{
 		return "last_over_time(" + a + " | unwrap weight [" + r + "]) by (container_image)"
 	}},
 	{name: "logfmt_unwrap", metric: true, build: func(a, _, r string) string {
-		return "sum_over_time(" + a + " | logfmt | unwrap k [" + r + "]) by (container, level)"
+		return "sum by (container, level) (sum_over_time(" + a + " | logfmt | unwrap k [" + r + "]))"
 	}},
 	{name: "count_offset", metric: true, build: func(a, _, r string) string { return "count_over_time(" + a + "[" + r + "] offset 5s)" }},
 	{name: "max_of_unwrap", metric: true, build: func(a, _, r string) string {
@@ -202,6 +209,10 @@ func (propC18) Gen(r *Rng, run uint64, tier string) *Plan {
 		selA += ` |= "r"`
 	}
 	p.Query = tpl.build(selA, selB, durText(rng))
+	if tpl.name == "regex_replace" {
+		// hundreds of distinct patterns pass through the template functions of one process
+		p.Query = strings.ReplaceAll(p.Query, "@", fmt.Sprint(run%400))
+	}
 	p.Tags["template"] = tpl.name
 	p.Tags["selA"], p.Tags["selB"], p.Tags["range"] = selA, selB, durText(rng)
 	p.Params = Params{Start: start, End: end, StepNs: step, Limit: -1}
@@ -293,6 +304,11 @@ func (propC18) Gen(r *Rng, run uint64, tier string) *Plan {
 }
 
 func (propC18) Expand(t *testing.T, p *Plan) []*Plan { return []*Plan{p} }
+
+// HistorySample picks the plans whose answer is also asked of a fresh process.
+func (propC18) HistorySample(p *Plan, i int64) bool {
+	return p.Harness == "engine" && !raceMode() && i%23 == 11
+}
 
 func (propC18) Check(t *testing.T, p *Plan, st *Stats) *Violation {
 	viol := func(vi int, clause, exp, obs string) *Violation {
